@@ -14,10 +14,12 @@ import (
 	"time"
 
 	"github.com/containerd/containerd/v2/core/snapshots"
+	"github.com/containerd/stargz-snapshotter/fs/config"
 	"github.com/containerd/stargz-snapshotter/snapshot"
 	"github.com/containerd/stargz-snapshotter/zzverif/common"
 	bolt "go.etcd.io/bbolt"
 	"verifsim/hx"
+	"verifsim/simreg"
 	"verifsim/simrt"
 )
 
@@ -58,6 +60,35 @@ func run(t *testing.T, tape *simrt.Tape) *hx.Outcome {
 	failDen := []int{0, 3, 8}[c(3)]
 	diskFaultDen := []int{0, 0, 0, 40}[c(4)]
 	nBase := c(3)
+	// a third of the runs put the REAL filesystem (fs.NewFilesystem over the resolver and a simulated registry)
+	// behind the snapshotter instead of drawn backend outcomes (own tape streams: older tapes replay unchanged)
+	realBackend := tape.Draw("cfg.real", 3) == 0
+	var img []common.DaemonLayer
+	var fcfg config.Config
+	var rcfg simreg.Config
+	maxSteps := 300000
+	if realBackend {
+		rc := func(n int) int { return tape.Draw("cfg.real", n) }
+		var err error
+		img, err = common.GenImage(func(n int) int { return tape.Draw("gen.real", n) }, tape.Seed, 4, []int{8, 17, 64}[rc(3)])
+		if err != nil {
+			out.InfraErr = "image: " + err.Error()
+			return out
+		}
+		fcfg = config.Config{
+			HTTPCacheType: []string{"memory", ""}[rc(2)], FSCacheType: []string{"memory", ""}[rc(2)], PrefetchTimeoutSec: 10,
+			ResolveResultEntryTTLSec: 2 + rc(60), AllowNoVerification: rc(2) == 0, NoBackgroundFetch: rc(3) == 0, NoPrefetch: rc(4) == 0,
+			BlobConfig:           config.BlobConfig{ChunkSize: []int64{16, 300, 50000}[rc(3)], FetchTimeoutSec: 30, MaxRetries: 1, MinWaitMSec: 10, MaxWaitMSec: 100, ValidInterval: int64([]int{1, 60}[rc(2)])},
+			DirectoryCacheConfig: config.DirectoryCacheConfig{MaxLRUCacheEntry: 1 + rc(3), MaxCacheFds: 1 + rc(3), SyncAdd: rc(2) == 1, Direct: rc(3) == 0},
+		}
+		rcfg = simreg.Config{Base: simreg.Personality(rc(int(simreg.NumPersonalities))), Redirect: rc(3) == 0}
+		if rc(2) == 1 {
+			rcfg.FaultDen = []int{6, 20}[rc(2)]
+			rcfg.LatencyDen = []int{0, 4}[rc(2)]
+		}
+		failDen, diskFaultDen = 0, 0 // outcomes come from the real filesystem; the disk seam belongs to every package here
+		maxSteps = 4000000
+	}
 	root, cleanup := hx.RunDir()
 	defer cleanup()
 	if err := presize(root); err != nil {
@@ -66,7 +97,7 @@ func run(t *testing.T, tape *simrt.Tape) *hx.Outcome {
 	}
 	var drv *common.SnapDriver
 	var rmEvents []rmEvent
-	res := simrt.Run(t, tape, simrt.Options{MaxSteps: 300000, HangAfter: time.Hour}, func(s *simrt.Sim, mt *simrt.Task) {
+	res := simrt.Run(t, tape, simrt.Options{MaxSteps: maxSteps, HangAfter: 3 * time.Hour}, func(s *simrt.Sim, mt *simrt.Task) {
 		fs := common.NewRecFS(s, "fs0", failDen)
 		fs.Dirty = s.Tape.Draw("cfg", 2) == 1
 		fs.Latency = s.Tape.Draw("cfg", 2) == 1
@@ -107,6 +138,29 @@ func run(t *testing.T, tape *simrt.Tape) *hx.Outcome {
 			}
 			return nil
 		}
+		var dm *common.Daemon
+		if realBackend {
+			reg := simreg.New(s, rcfg)
+			var err error
+			dm, err = common.NewDaemon(s, filepath.Join(root, "stargz"), img, fcfg, reg, nil, s.Tape.Draw("cfg.real", 2) == 1)
+			if err != nil {
+				s.Fail("harness", "NewFilesystem: %v", err)
+				return
+			}
+			dm.FuseFailDen = []int{0, 0, 6}[s.Tape.Draw("cfg.real", 3)]
+			fs.Inner = dm.FS
+			if rcfg.FaultDen > 0 {
+				// connectivity loss and recovery while the clients work
+				s.Go("network", func(t *simrt.Task) {
+					for i := 0; i < 1+s.Tape.Draw(t.Label, 3) && !fs.Quiet; i++ {
+						t.Sleep(time.Duration(1+s.Tape.Draw(t.Label, 20)) * time.Second)
+						reg.Down = !fs.Quiet
+						t.Sleep(time.Duration(1+s.Tape.Draw(t.Label, 30)) * time.Second)
+						reg.Down = false
+					}
+				})
+			}
+		}
 		ctx := context.Background()
 		var opts []snapshot.Opt
 		if async {
@@ -121,6 +175,12 @@ func run(t *testing.T, tape *simrt.Tape) *hx.Outcome {
 			return
 		}
 		drv = common.NewSnapDriver(s, sn, fs, root)
+		if realBackend {
+			drv.TargetLabels = func(t *simrt.Task, target string) (map[string]string, bool, string) {
+				v := []string{"ok", "ok", "ok", "ok", "wrong-toc", "skip", "none"}[s.Tape.Draw("lbl:"+t.Label, 7)]
+				return dm.Labels(int(target[len(target)-1]-'0'), v), true, ""
+			}
+		}
 		fs.OnUnmount = func(mp string, labels map[string]string) {
 			call := labels[common.CallLabel]
 			if call == "" || drv.Closing {
@@ -235,6 +295,30 @@ func run(t *testing.T, tape *simrt.Tape) *hx.Outcome {
 		}
 		// ---- quiescent point: global invariants ----
 		fs.Quiet = true
+		if realBackend {
+			dm.Quiet, dm.Reg.Down, dm.Reg.NoFaults = true, false, true
+			dm.Reg.Cfg.LatencyDen = 0
+			// the kernel's FUSE mounts are exactly the backend mounts the snapshotter was told about
+			for mp := range dm.Kernel {
+				if _, ok := fs.Live[mp]; !ok {
+					s.Fail("fuse-mount-leaked", "the filesystem left a FUSE mount on %s although its Mount call reported failure or its Unmount call reported success", common.RelSnap(mp))
+					return
+				}
+			}
+			for _, mp := range fs.LiveMounts() {
+				if _, ok := dm.Kernel[mp]; !ok {
+					s.Fail("mount-without-fuse", "backend mount %s is reported live but nothing is mounted there", common.RelSnap(mp))
+					return
+				}
+				// ... and each serves the layer its snapshot's labels name
+				want := dm.LayerIndex(fs.Live[mp][common.LabelDigest])
+				if got := dm.ServedLayer(mp); got != want {
+					s.Fail("mount-serves-other-layer", "the mount on %s was made for layer %d of the image (label %s) but serves layer %d (-2: unreadable state file)", common.RelSnap(mp), want, common.LabelDigest, got)
+					return
+				}
+				out.Counters["real_mounts_audited"]++
+			}
+		}
 		// (G1) a backend mount is unmounted only after its snapshot has been removed: checked at the
 		// instant of every successful Unmount against the metadata store (fs.OnUnmount below)
 		// (G2) ... and always before its directory is deleted
@@ -336,7 +420,10 @@ func run(t *testing.T, tape *simrt.Tape) *hx.Outcome {
 		out.Nontrivial = drv.Counters["remote_created"] > 0 && len(drv.FS.Events) > 2
 	}
 	out.Counters["rmdir_events"] += len(rmEvents)
-	out.Signature = fmt.Sprintf("t%d/async%v/f%d/d%d/b%d", nTasks, async, failDen, diskFaultDen, nBase)
+	out.Signature = fmt.Sprintf("t%d/async%v/f%d/d%d/b%d/real%v", nTasks, async, failDen, diskFaultDen, nBase, realBackend)
+	if realBackend {
+		out.Counters["real_backend_runs"]++
+	}
 	out.Sample = map[string]any{"clients": nTasks, "async_remove": async, "backend_fail_den": failDen, "disk_fault_den": diskFaultDen, "base_chain": nBase, "log_tail": tailN(res.LogTail, 30)}
 	return out
 }
@@ -351,11 +438,11 @@ func tailN(l []string, n int) []string {
 func TestC08(t *testing.T) {
 	hx.Main(t, hx.Prop{
 		ID:   "C08",
-		Rule: "each run draws 1-3 concurrent client tasks, sync/async removal, a backend failure rate for Mount/Check/Unmount (none, 1/3, 1/8; failing mounts may first touch the directory), optional backend latency, a disk fault rate (none or 1/40 on mkdir/rename/chown/removeall) and a base chain of 0-2 ordinary snapshots; each client issues 3-9 calls among Prepare with target (targets shared so that clients race for them), Prepare, View, Commit, Mounts, Remove, Cleanup, Update+Walk over any parent graph. Per call: target result (exists => committed; created by this call => marked remote with a live mount on its directory; fallback => active, not remote, no live mount), Unavailable iff a connectivity check of a remote ancestor failed, every remote ancestor checked, lowerdir nearest parent first. At quiescence: unmounts only after removal, no directory deleted under a live mount without an unmount attempt, after Cleanup directories = live snapshots, committed remote snapshots mounted exactly once, nothing mounted after Close. non-trivial = a remote snapshot was created and the backend was called more than twice; distinct = schedule hash x configuration",
+		Rule: "each run draws 1-3 concurrent client tasks, sync/async removal, a backend failure rate for Mount/Check/Unmount (none, 1/3, 1/8; failing mounts may first touch the directory), optional backend latency, a disk fault rate (none or 1/40 on mkdir/rename/chown/removeall) and a base chain of 0-2 ordinary snapshots; each client issues 3-9 calls among Prepare with target (targets shared so that clients race for them), Prepare, View, Commit, Mounts, Remove, Cleanup, Update+Walk over any parent graph. Per call: target result (exists => committed; created by this call => marked remote with a live mount on its directory; fallback => active, not remote, no live mount), Unavailable iff a connectivity check of a remote ancestor failed, every remote ancestor checked, lowerdir nearest parent first. At quiescence: unmounts only after removal, no directory deleted under a live mount without an unmount attempt, after Cleanup directories = live snapshots, committed remote snapshots mounted exactly once, nothing mounted after Close. In a third of the runs the backend is not a stub: the REAL filesystem (fs.NewFilesystem: Mount with source labels, TOC verification, prefetch / background fetch, pre-resolution of neighbouring layers; Check with connectivity check and refresh; Unmount) over the real resolver and a simulated registry (personalities, transient faults, latency, outages) sits behind the recorder, Prepare calls carry real source labels (right / wrong / missing TOC digest, skip-verify) for one of four layers of an image, FUSE mounting itself may fail; Mount/Check/Unmount outcomes are then whatever the real code returns, and at quiescence the simulated kernel's FUSE mounts must be exactly the backend mounts the snapshotter holds, each serving the layer its labels name. non-trivial = a remote snapshot was created and the backend was called more than twice; distinct = schedule hash x configuration",
 		Run:  run,
 		PanicIsViolation: true,
 		HangIsViolation:  true,
-		Components: map[string]string{"snapshot.snapshotter": "real (instrumented copy)", "containerd snapshots/storage on bolt": "real", "directories": "real tmpfs", "snapshot.FileSystem backend": "stub (recording, drawn outcomes)", "kernel mount table": "stub (seam in the instrumented copy)"},
+		Components: map[string]string{"snapshot.snapshotter": "real (instrumented copy)", "containerd snapshots/storage on bolt": "real", "directories": "real tmpfs", "snapshot.FileSystem backend": "two configurations: stub (recording, drawn outcomes) in 2/3 of the runs; REAL fs.filesystem + layer resolver + remote blob + caches over the simulated registry behind the recorder in 1/3", "registry": "stub (simreg)", "FUSE kernel side (fuse.NewServer, umount)": "stub (seam in package fs: simulated kernel mount table holding the root nodes)", "kernel mount table": "stub (seam in the instrumented copy)"},
 		Assumptions: []string{"disk calls inside package snapshot are fault points but not scheduling points (bolt write transactions are open across them); tasks interleave at backend calls and between operations", "metadata.db is pre-sized so that bolt never remaps under a parked reader"},
 	})
 }
